@@ -90,6 +90,11 @@ class StackDo(StackContract):
         st.cmd = z3.Const('cmd', Cmd)
         return Inputs([st.stk, st.cmd], st=st)
 
+    def requires(self, cfg, st):
+        # no bound on the history found: a command whose do() raised stays logged without the trim, so the history may be longer than
+        # MAX_UNDO when the next command arrives - a successful do() has to bring it back to the bound whatever it finds
+        return []
+
     def finish(self, cfg, st, P, outcome):
         qn = "CommandStack.do[-]"
         if outcome[0] != 'return':
